@@ -1,4 +1,6 @@
 //! Seeded generators shared between monitors.
 pub mod corpus;
+pub mod frames;
+pub mod mutate;
 pub mod hostile;
 pub mod wire;
